@@ -451,6 +451,9 @@ class Session:
             self.next_reply.append(reply)
         tr = self.net.conns[m["conn"]]
         cur = self.lan._protocol is not None and getattr(self.lan._protocol, "_transport", None) is tr
+        # "proof under the presented key" is a fact about the message AND the call that receives it: a reply produced for an earlier call (good
+        # credentials) that reaches a later call presenting other credentials proves nothing to that call
+        m["obs"] = self._observe(m["data"])
         fed = tr.feed(m["data"])
         self.loop.run_idle()
         return self._collect({"e": "deliver", "c": m["conn"] + 1, "m": m["cls"], "k": m["k"], "gen": bool(m["gen"]), "live": bool(fed), "i": i + 1,
